@@ -14,8 +14,7 @@ links them to the executable model that is compared bit-for-bit with the Rust co
 Core only (no Mathlib): this file is part of the model layer. -/
 namespace A5
 
-/-- The exact rational value `num * 2^exp` of a generated float constant. -/
-def FConst.toRat (c : FConst) : Rat := c.num * (2 : Rat) ^ c.exp
+-- `FConst.toRat` (the exact rational value `num * 2^exp`) lives in `A5/Model/FConst.lean`
 
 /-- `|x|` on `Rat` (core has no `abs`); equals Mathlib's `|x|`, see `A5.RealGeo.ratAbs_eq_abs`. -/
 def ratAbs (x : Rat) : Rat := if x < 0 then -x else x
